@@ -127,6 +127,11 @@ impl Setup {
 }
 
 pub fn random_setup(r: &mut Rng, backend: &str, tag: u64) -> Setup {
+    random_setup_x(r, backend, tag, false)
+}
+
+/// `extreme`: every configuration value validation accepts, at its limits (C16)
+pub fn random_setup_x(r: &mut Rng, backend: &str, tag: u64, extreme: bool) -> Setup {
     let same_prefix = r.chance(15);
     let np = if same_prefix { CHAIN_PREFIX.to_string() } else { "celestia".to_string() };
     let vp = format!("{}valoper", np);
@@ -143,10 +148,14 @@ pub fn random_setup(r: &mut Rng, backend: &str, tag: u64) -> Setup {
         channel: if r.chance(15) { format!("channel-{:0>4}", r.below(500)) } else { format!("channel-{}", r.below(5000)) },
         oracle: if r.chance(70) { Some(addr(CHAIN_PREFIX, "oracle", 32)) } else { None },
         treasury: if r.chance(50) { Some(addr(CHAIN_PREFIX, "treasury", 32)) } else { None },
-        fee: *r.pick(&[0u128, 1, 1000, 10_000, 10_000, 33_333, 99_999, 100_000]),
-        min: *r.pick(&[1u128, 10, 100, 1000]),
-        batch_period: *r.pick(&[60u64, 3600, 86_400]),
-        unbonding: *r.pick(&[120u64, 7200, 1_814_400]),
+        fee: if extreme {
+            *r.pick(&[0u128, 1, 99_999, 100_000, 100_001, 10u128.pow(17), 10u128.pow(30), u128::MAX])
+        } else {
+            *r.pick(&[0u128, 1, 1000, 10_000, 10_000, 33_333, 99_999, 100_000])
+        },
+        min: if extreme { *r.pick(&[0u128, 1, 1000, 10u128.pow(27)]) } else { *r.pick(&[1u128, 10, 100, 1000]) },
+        batch_period: if extreme { extreme_period(r) } else { *r.pick(&[60u64, 3600, 86_400]) },
+        unbonding: if extreme { extreme_period(r) } else { *r.pick(&[120u64, 7200, 1_814_400]) },
         monitors: (0..r.below(3)).map(|i| addr(CHAIN_PREFIX, &format!("monitor{i}"), 20)).collect(),
         sub: r.pick(&["stTIA", "milkTIA", "abcd"]).to_string(),
         users: (0..nusers).map(|i| addr(CHAIN_PREFIX, &format!("user{i}"), 20)).collect(),
@@ -186,6 +195,25 @@ pub fn view(sim: &Sim) -> View {
     }
 }
 
+pub fn extreme_period(r: &mut Rng) -> u64 {
+    let now_s = T0 / 1_000_000_000;
+    *r.pick(&[0u64, 1, 60, 3600, 1_000_000_000, 18_446_744_073 - now_s - 100, 18_446_744_073 - now_s + 100, 1_000_000_000_000, 1 << 63, u64::MAX - now_s - 50, u64::MAX - now_s + 50, u64::MAX])
+}
+
+const E27: u128 = 1_000_000_000_000_000_000_000_000_000;
+
+fn amount_extreme(r: &mut Rng, min: u128) -> u128 {
+    match r.below(8) {
+        0 => E27,
+        1 => E27 - r.u128_upto(1000),
+        2 => r.u128_upto(E27),
+        3 => E27 / 1000 + r.u128_upto(1000),
+        4 => 1,
+        5 => min,
+        _ => min + r.u128_upto(1_000_000),
+    }
+}
+
 fn amount_near(r: &mut Rng, min: u128) -> u128 {
     match r.below(10) {
         0 => min.saturating_sub(1),
@@ -205,6 +233,7 @@ pub struct WorldGen {
     pub r: Rng,
     pub flags: Flags,
     pub query_ops: bool,
+    pub extreme: bool,
 }
 
 impl WorldGen {
@@ -218,6 +247,72 @@ impl WorldGen {
             r,
             flags: Flags { routing_changed: false, forced_recovery: false, dishonest_operator: false, resumed_nonzero: false },
             query_ops: true,
+            extreme: false,
+        }
+    }
+
+    pub fn new_extreme(seed: u64, backend: &str, tag: u64) -> WorldGen {
+        let mut r = Rng(seed);
+        let xs = r.chance(50);
+        let s = random_setup_x(&mut r, backend, tag, xs);
+        let w = World::new(backend, &s.me, T0);
+        WorldGen {
+            w,
+            s,
+            r,
+            flags: Flags { routing_changed: false, forced_recovery: false, dishonest_operator: false, resumed_nonzero: false },
+            query_ops: true,
+            extreme: true,
+        }
+    }
+
+    /// C16: totals at the limits of the stated domain (amounts up to 10^27, rates between 10^-3 and 10^3), set by the admin
+    pub fn extreme_resume(&mut self) {
+        let admin = self.s.admin.clone();
+        let (n, l) = *self.r.pick(&[(E27, E27 / 1000), (E27 / 1000, E27), (E27, E27), (1000u128, 1u128), (1, 1000), (E27, E27 - 1), (0, 0), (E27 - 7, 999_999_999_999_999_999_999_999u128 + 13)]);
+        let rw = *self.r.pick(&[0u128, 1, E27]);
+        self.w.exec(None, &admin, vec![], "breaker");
+        self.w.exec(Some(0), &admin, vec![], &format!("resume {} {} {}", n, l, rw));
+    }
+
+    /// C16: configuration sections at their limits
+    pub fn extreme_admin(&mut self) {
+        let admin = self.s.admin.clone();
+        match self.r.below(4) {
+            0 => {
+                let bp = extreme_period(&mut self.r);
+                self.w.exec(None, &admin, vec![], &format!("updcfg - - - - {}", bp));
+            }
+            1 => {
+                let t = if self.r.chance(50) { hs(&addr(CHAIN_PREFIX, "treasury2", 32)) } else { "-".to_string() };
+                let fee = *self.r.pick(&[0u128, 100_000, 100_001, 10u128.pow(17), 10u128.pow(30), u128::MAX]);
+                self.w.exec(None, &admin, vec![], &format!("updcfg - - ({};{}) - -", fee, t));
+            }
+            2 => {
+                let o = if self.r.chance(50) { hs(&addr(CHAIN_PREFIX, "oracle", 32)) } else { "-".to_string() };
+                let min = *self.r.pick(&[0u128, 1, E27]);
+                self.w.exec(None, &admin, vec![], &format!("updcfg - ({};{};{};{};{}) - - -", hs(CHAIN_PREFIX), hs(D), hs(&self.s.channel), min, o));
+            }
+            _ => {
+                let v = view(&self.w.sim);
+                let n = &v.cfg.native_chain_config;
+                let ub = extreme_period(&mut self.r);
+                self.w.exec(
+                    None,
+                    &admin,
+                    vec![],
+                    &format!(
+                        "updcfg ({};{};{};{};{};{};{}) - - - -",
+                        hs(&n.account_address_prefix),
+                        hs(&n.validator_address_prefix),
+                        hs(&n.token_denom),
+                        s_list(&n.validators, |a| hs(a.as_str())),
+                        ub,
+                        hs(n.staker_address.as_str()),
+                        hs(n.reward_collector_address.as_str())
+                    ),
+                );
+            }
         }
     }
 
@@ -256,7 +351,7 @@ impl WorldGen {
         match k {
             0..=7 => {
                 let u = self.user();
-                let a = amount_near(&mut self.r, 1000).max(1);
+                let a = if self.extreme { amount_extreme(&mut self.r, 1000).max(1) } else { amount_near(&mut self.r, 1000).max(1) };
                 self.w.faucet(&u, D, a);
             }
             8..=27 => {
@@ -265,6 +360,9 @@ impl WorldGen {
                 let bal = self.w.chain.bal(&u, D);
                 let min = v.cfg.protocol_chain_config.minimum_liquid_stake_amount.u128();
                 let mut a = amount_near(&mut self.r, min);
+                if self.extreme && bal > 0 && self.r.chance(40) {
+                    a = bal;
+                }
                 if bal == 0 {
                     let top = a.max(1);
                     self.w.faucet(&u, D, top);
@@ -315,9 +413,9 @@ impl WorldGen {
                             let target = match self.r.below(3) {
                                 0 => t - 1,
                                 1 => t,
-                                _ => t + 1,
+                                _ => t.saturating_add(1),
                             };
-                            if target > now_s {
+                            if target > now_s && target - now_s < 400_000_000 {
                                 let sub_ns = if self.r.chance(50) { 0 } else { self.r.below(1_000_000_000) };
                                 let dt = (target - now_s) * 1_000_000_000 - (self.w.now_ns % 1_000_000_000) + sub_ns;
                                 self.w.tick(dt);
@@ -344,12 +442,15 @@ impl WorldGen {
             }
             58..=63 => {
                 // rewards from the collector
-                let a = match self.r.below(6) {
+                let mut a = match self.r.below(6) {
                     0 => 1 + self.r.u128_upto(20),
                     1 => 100_000,
                     2 => 99_999 + self.r.u128_upto(3),
                     _ => 1 + self.r.u128_upto(1_000_000),
                 };
+                if self.extreme && self.r.chance(40) {
+                    a = amount_extreme(&mut self.r, 1).max(1);
+                }
                 let col = v.cfg.native_chain_config.reward_collector_address.to_string();
                 self.w.native_faucet(&col, D, a);
                 let ch = self.s.channel.clone();
@@ -370,9 +471,9 @@ impl WorldGen {
                         let target = match self.r.below(4) {
                             0 => t - 1,
                             1 => t,
-                            _ => t + 1 + self.r.below(100),
+                            _ => t.saturating_add(1 + self.r.below(100)),
                         };
-                        if target > now_s {
+                        if target > now_s && target - now_s < 400_000_000 {
                             self.w.tick((target - now_s) * 1_000_000_000);
                         }
                     }
@@ -780,6 +881,15 @@ impl WorldGen {
     }
 
     /// Read-only probes appended to the contract-level op stream.
+    /// queries sent to a store that was never instantiated: the ones that read the configuration, the state or a
+    /// batch record (the list queries answer an empty list there, which the model, having no store at all, does not express)
+    pub fn queries_blind(&mut self) {
+        let ops = &mut self.w.ops;
+        for q in ["query state", "query config", "query pending", "query batch 0", "query batch 1"] {
+            ops.push(q.to_string());
+        }
+    }
+
     pub fn queries(&mut self) {
         let v = view(&self.w.sim);
         let ops = &mut self.w.ops;
